@@ -749,7 +749,13 @@ func (s *Sim) Run(estSteps int) {
 				}
 			}
 		}
-		if len(elig) > 0 && len(elig) < k && s.Sched.Draw(4) == 3 {
+		parked := 0
+		for i := 0; i < k; i++ {
+			if runnable[i].blocked {
+				parked++
+			}
+		}
+		if len(elig) > 0 && parked > 0 && s.Sched.Draw(4) == 3 {
 			// Some tasks are parked in a cooperative wait. Whether what they
 			// wait for has happened is not tracked per task, so now and then
 			// (one step in four, drawn) they compete with the awake tasks and
